@@ -26,7 +26,7 @@ type Config struct {
 
 var remoteAddrs = []string{
 	"git::https://example.com/p0.git",
-	"git::https://Example.com/p1.git", // same length as p0: an equally long alias when it is a clone; upper-case letter in the host
+	"git::https://Example.com/p1.git",   // same length as p0: an equally long alias when it is a clone; upper-case letter in the host
 	"https://example.com/dl%20x/p1.tgz", // a path that needs escaping
 	"git::ssh://git.example.com/org/p2.git?ref=v1",
 	"https://example.com/dl/p3?archive=tgz",
@@ -186,9 +186,16 @@ func Gen(t *rapid.T, cfg Config) World {
 		}
 		w.Remotes = append(w.Remotes, p)
 	}
+	cloneSrc := 0
 	if cfg.Clones && nRem >= 2 && rapid.IntRange(0, 2).Draw(t, "clone?") == 0 {
 		// the last package becomes a byte-identical copy of the first, under its own address
-		src := w.Remotes[0]
+		// (mostly of the first; any earlier package now and then: which of two addresses is the shorter or sorts first varies)
+		srcIdx := 0
+		if nRem >= 3 && rapid.IntRange(0, 2).Draw(t, "clonesrc?") == 0 {
+			srcIdx = rapid.IntRange(0, nRem-2).Draw(t, "clonesrc")
+		}
+		cloneSrc = srcIdx
+		src := w.Remotes[srcIdx]
 		last := &w.Remotes[nRem-1]
 		last.Content = src.Content
 		last.Modules = src.Modules
@@ -196,7 +203,7 @@ func Gen(t *rapid.T, cfg Config) World {
 		switch rapid.IntRange(0, 3).Draw(t, "ignoredonly?") {
 		case 0:
 			// ... or a copy that differs only in files the bundle never keeps
-			src0 := &w.Remotes[0]
+			src0 := &w.Remotes[srcIdx]
 			src0.Extra = append(append(fsx.Tree{}, src0.Extra...), fsx.Node{Path: ".git/HEAD", Kind: "file", Content: "ref: a", Mode: 0644, Sec: 1500000000})
 			last.Extra = append(append(fsx.Tree{}, src.Extra...), fsx.Node{Path: ".git/HEAD", Kind: "file", Content: "ref: b (other checkout)", Mode: 0644, Sec: 1500000000},
 				fsx.Node{Path: ".terraform/plugins/x", Kind: "file", Content: "plugin", Mode: 0755, Sec: 1500000000})
@@ -204,7 +211,7 @@ func Gen(t *rapid.T, cfg Config) World {
 		if rapid.IntRange(0, 5).Draw(t, "linkclone?") == 0 {
 			// ... or a copy in which an in-package link leads to another file: the same regular files, different content behind one name
 			two := fsx.Tree{{Path: "cfg-a.deps", Kind: "file", Content: "deps of a", Mode: 0644, Sec: 1500000000}, {Path: "cfg-b.deps", Kind: "file", Content: "deps of b", Mode: 0644, Sec: 1500000000}}
-			src0 := &w.Remotes[0]
+			src0 := &w.Remotes[srcIdx]
 			src0.Extra = append(append(append(fsx.Tree{}, src.Extra...), two...), fsx.Node{Path: "current.deps", Kind: "symlink", Target: "cfg-a.deps"})
 			last.Extra = append(append(append(fsx.Tree{}, src.Extra...), two...), fsx.Node{Path: "current.deps", Kind: "symlink", Target: "cfg-b.deps"})
 		} else if cfg.EmptyDirClones && rapid.IntRange(0, 2).Draw(t, "emptydirclone?") == 0 {
@@ -219,7 +226,7 @@ func Gen(t *rapid.T, cfg Config) World {
 	}
 	// script
 	if emptyDirCall != nil {
-		w.Script = append(w.Script, AddCall{Kind: "remote", Addr: w.Remotes[0].Addr}, *emptyDirCall)
+		w.Script = append(w.Script, AddCall{Kind: "remote", Addr: w.Remotes[cloneSrc].Addr}, *emptyDirCall)
 	}
 	nCalls := rapid.IntRange(1, 4).Draw(t, "ncalls")
 	for i := 0; i < nCalls; i++ {
